@@ -737,9 +737,13 @@ def _tree_snapshot(wt):
     with wt.lock_read():
         snap["parents"] = [p.decode() for p in wt.get_parent_ids()]
         chg = []
+        nonroot = 0
         for ch in wt.iter_changes(wt.basis_tree()):
             chg.append(repr((ch.file_id, ch.path, ch.changed_content, ch.versioned, ch.kind, ch.executable)))
+            if (ch.path[1] if ch.path[1] is not None else ch.path[0]) != "":
+                nonroot += 1      # the root of a tree on the null revision is not an uncommitted change
         snap["changes"] = sorted(chg)
+        snap["nonroot_changes"] = nonroot
         files = {}
         for path, entry in wt.iter_entries_by_dir():
             if entry.kind == "file":
@@ -1260,7 +1264,7 @@ def oracle_reconf(inp, obs):
             if af["tree"] != bf["tree"]:
                 return "tree-changed: working tree content/pending changes differ"
         else:
-            dirty = len(bf["tree"]["parents"]) > 1 or bf["tree"]["changes"]
+            dirty = len(bf["tree"]["parents"]) > 1 or bf["tree"]["nonroot_changes"] > 0
             if dirty and not inp["force"]:
                 return "tree-changes-destroyed: a tree with uncommitted changes was removed without force"
         # O5 the revisions of the pending merges stay available to the tree's branch
